@@ -111,6 +111,62 @@ def _sccs(g: Dict[str, Set[str]]) -> List[List[str]]:
     return out
 
 
+_PURE_CALLS = {"isinstance", "issubclass", "len", "all", "any", "callable", "hasattr", "type", "abs", "min", "max", "sum", "bool", "int", "float",
+               "str", "repr", "tuple", "list", "set", "frozenset", "dict", "sorted", "id", "getattr", "round", "math.isfinite", "math.isnan",
+               "math.isclose", "math.isinf"}
+
+
+def effect_free_asserts(rep: Report, prog: Program, resolver: Resolver, rid: str) -> None:
+    """`python -O` deletes assert statements - with everything their test does.  An assert whose test binds a name
+    (`assert isinstance(x := f(..), T)`), mutates something (`assert table.pop(k) == 0`) or calls a function of the
+    package that writes shared state (`assert self._anchor(unit, zero)`) makes the library compute something else under
+    -O: whichever property the computation serves then holds in one of the two configurations only."""
+    from ..effects import writes_in
+    n = 0
+    for q, fi in sorted(prog.functions.items()):
+        if fi.module in ("hypothesis", "pytest", "_parser"):
+            continue
+        for a in Resolver._own_nodes(fi.node):
+            if not isinstance(a, ast.Assert):
+                continue
+            n += 1
+            why = ""
+            where: ast.AST = a
+            for x in ast.walk(a.test):
+                if isinstance(x, ast.NamedExpr):
+                    why, where = f"binds `{x.target.id}` inside the test", x
+                    break
+                if isinstance(x, (ast.Await, ast.Yield, ast.YieldFrom)):
+                    why, where = "suspends inside the test", x
+                    break
+                if isinstance(x, ast.Call):
+                    txt = ast.unparse(x.func)
+                    if txt in _PURE_CALLS:
+                        continue
+                    if isinstance(x.func, ast.Attribute) and x.func.attr in MUT_METHODS:
+                        why, where = f"calls the mutator `{txt}`", x
+                        break
+                    targets = [t for cs in resolver.callsites(q) if cs.node is x for t in cs.targets]
+                    for t in targets:
+                        sub = Reach(resolver, [t])
+                        ws = [w for g in sub.reached if prog.functions[g].module not in ("hypothesis", "pytest")
+                              for w in writes_in(prog, resolver, g) if sub.feasible_node(g, w.node)]
+                        if ws:
+                            why, where = f"calls {t}, which writes {sorted({w.location for w in ws})[:3]}", x
+                            break
+                    if why:
+                        break
+            rep.check(rid, f"{q}:{ast.unparse(a.test)[:50]}", not why,
+                      f"the assert in {q} {why}: under `python -O` the statement - and that effect - is gone, so the function computes "
+                      "something else in optimised mode", fi.where(where))
+    if n == 0:
+        rep.ok(rid, "package", note="no assert statement in the package")
+
+
+MUT_METHODS = {"pop", "popitem", "append", "extend", "insert", "remove", "clear", "update", "setdefault", "add", "discard", "sort", "reverse",
+               "cache_clear", "__setitem__", "__delitem__"}
+
+
 def run(rep: Report) -> None:
     prog = Program()
     resolver = Resolver(prog)
@@ -126,6 +182,9 @@ def run(rep: Report) -> None:
     rep.rule("R07.8", "Measurement's comparison methods do not call in_unit/convert outside a ConversionNotFound handler", floor=1)
     rep.rule("R07.6", "every cycle of the reachable call graph contains a function whose recursion is bounded for a stated reason (visited set, "
              "one-step conversion, caught formatting error): no unbounded mutual recursion between operators", floor=3)
+    rep.rule("R07.9", "every assert in the package is free of effects: no binding, no mutator, no call that writes shared state inside its test "
+             "(python -O removes the statement with everything it does)", floor=1)
+    rep.rule("R07.10", "where _cancel_factors pops under a dimension and under its inverse, it tests that the two are different keys (Number is its own inverse)", floor=1)
     rep.rule("R07.5", "planner zone: no reduce() without initialiser over a possibly empty sequence; no true division by "
              "something derived from the converted magnitude; no type errors reported by mypy", floor=3)
     rep.rule("R07.5i", "inventory: partial operations in the reachable set (subscripts, pop, remove, reduce, division)", armed=False)
@@ -410,6 +469,30 @@ def run(rep: Report) -> None:
         raise AnalysisError("Measurement comparison methods not found (R07.8 anchor moved)")
     if not any(r_.rid == "R07.8" and r_.instances for r_ in rep.rules.values()):
         rep.ok("R07.8", "Measurement", note="no direct conversion in Measurement's comparison methods")
+    effect_free_asserts(rep, prog, resolver, "R07.9")
+    # R07.10: _cancel_factors pops a factor filed under a dimension and one filed under its inverse; Number is its own inverse,
+    # so without a test that the two keys differ the second pop takes from the list the first one may just have emptied
+    cf = prog.func("conversions._cancel_factors")
+    n10 = 0
+    for loop in [x for x in ast.walk(cf.node) if isinstance(x, ast.While)]:
+        keys = [ast.unparse(c.left) for c in ast.walk(loop.test) if isinstance(c, ast.Compare) and len(c.ops) == 1 and isinstance(c.ops[0], ast.In)]
+        if len(set(keys)) != 2:
+            continue
+        pops = [c for st in loop.body for c in ast.walk(st) if isinstance(c, ast.Call) and ast.unparse(c.func) in ("_clean_pop",) and len(c.args) == 2
+                and ast.unparse(c.args[1]) in keys]
+        popped = {ast.unparse(c.args[1]) for c in pops}
+        if popped != set(keys):
+            continue
+        n10 += 1
+        a_, b_ = sorted(set(keys))
+        distinct = any(isinstance(t, ast.Compare) and len(t.ops) == 1 and isinstance(t.ops[0], (ast.Is, ast.IsNot, ast.Eq, ast.NotEq))
+                       and {ast.unparse(t.left), ast.unparse(t.comparators[0])} == {a_, b_} for st in loop.body for t in ast.walk(st))
+        rep.check("R07.10", f"_cancel_factors:{a_}/{b_}", distinct,
+                  f"_cancel_factors pops a factor under `{a_}` and one under `{b_}` after testing that both keys exist, but never that they are different "
+                  "keys: for Number (its own inverse) an odd number of dimensionless factors makes the second pop raise KeyError - from in_unit, +, -, == "
+                  "and <, where ConversionNotFound (or a result) is expected", cf.where(pops[-1]))
+    if n10 == 0:
+        rep.ok("R07.10", "_cancel_factors", note="no loop that pops under two keys")
     # mypy diagnostics in the planner zone
     zone_files = {"conversions.py"}
     errs = [e for e in getattr(prog, "mypy_errors", []) if any(f"/{z}:" in e or e.startswith(f"src/measured/{z}:") for z in zone_files)]
